@@ -546,6 +546,25 @@ type MsgDef struct {
 	Pkg, Name string
 	Lines     []string // field lines; references written "pkg/Name" or "Name"
 	Deps      []int    // indexes into Defs referenced by Lines (for the oracle)
+	NoNL      bool     // the definition file does not end with a newline (hand-edited files)
+}
+
+// text is the content of the definition file.
+func (d *MsgDef) text() string {
+	s := strings.Join(d.Lines, "\n")
+	if !d.NoNL {
+		s += "\n"
+	}
+	return s
+}
+
+// sameDefinition compares a section of an assembled schema with a definition file, modulo one trailing newline;
+// a section that is followed by another one must leave the separator on a line of its own.
+func sameDefinition(sec, file string, last bool) bool {
+	if strings.TrimSuffix(sec, "\n") != strings.TrimSuffix(file, "\n") {
+		return false
+	}
+	return last || sec == "" || strings.HasSuffix(sec, "\n")
 }
 
 type DB3Case struct {
@@ -576,7 +595,9 @@ func genDB3(t *rapid.T) DB3Case {
 	}
 	for i := nd - 1; i >= 0; i-- {
 		d := &c.Defs[i]
-		nf := rapid.IntRange(1, 4).Draw(t, "n-fields")
+		// an empty definition is a real thing (std_msgs/msg/Empty)
+		nf := rapid.IntRange(0, 4).Draw(t, "n-fields")
+		d.NoNL = rapid.IntRange(0, 3).Draw(t, "no-final-newline") == 0
 		for f := 0; f < nf; f++ {
 			if i < nd-1 && rapid.IntRange(0, 2).Draw(t, "dep?") == 0 {
 				r := rapid.IntRange(i+1, nd-1).Draw(t, "dep")
@@ -700,7 +721,7 @@ func buildDB3(c *DB3Case, dir string) (*sql.DB, []string, error) {
 			if err := os.MkdirAll(mdir, 0o755); err != nil {
 				return nil, nil, err
 			}
-			if err := os.WriteFile(filepath.Join(mdir, d.Name+".msg"), []byte(strings.Join(d.Lines, "\n")+"\n"), 0o644); err != nil {
+			if err := os.WriteFile(filepath.Join(mdir, d.Name+".msg"), []byte(d.text()), 0o644); err != nil {
 				return nil, nil, err
 			}
 		}
@@ -865,13 +886,13 @@ func checkDB3(c DB3Case, st *stats.Collector) error {
 			}
 		}
 		sections := strings.Split(string(s.Data), strings.TrimSuffix(string(ros.MessageDefinitionSeparator), "\n")+"\n")
-		top := strings.Join(c.Defs[di].Lines, "\n") + "\n"
-		if sections[0] != top {
+		top := c.Defs[di].text()
+		if !sameDefinition(sections[0], top, len(sections) == 1) {
 			return pk.Failf("schema-text", "schema of %s starts with %q, the definition file holds %q", t.Type, sections[0], top)
 		}
 		wantDeps := c.closure(di)
 		seenDeps := map[string]bool{}
-		for _, sec := range sections[1:] {
+		for si, sec := range sections[1:] {
 			nl := strings.Index(sec, "\n")
 			if nl < 0 || !strings.HasPrefix(sec, "MSG: ") {
 				return pk.Failf("schema-text", "schema of %s has a section without a MSG header: %q", t.Type, sec)
@@ -886,8 +907,8 @@ func checkDB3(c DB3Case, st *stats.Collector) error {
 				df := c.Defs[x]
 				if df.Pkg+"/"+df.Name == name {
 					found = true
-					if sec[nl+1:] != strings.Join(df.Lines, "\n")+"\n" {
-						return pk.Failf("schema-text", "schema of %s: section %s holds %q, the file holds %q", t.Type, name, sec[nl+1:], strings.Join(df.Lines, "\n")+"\n")
+					if !sameDefinition(sec[nl+1:], df.text(), si == len(sections)-2) {
+						return pk.Failf("schema-text", "schema of %s: section %s holds %q, the file holds %q (compared modulo one final newline; the separator must stay on its own line)", t.Type, name, sec[nl+1:], df.text())
 					}
 				}
 			}
